@@ -274,7 +274,7 @@ class LinSolve:
                 rec["info"] = info
         else:
             exact_solve(rec)
-        return SymArray(x, "f8"), info
+        return SymArray(rec["x"], "f8"), info
 
 
 def exact_solve(rec):
